@@ -285,7 +285,10 @@ class StatementLineageHolder(SubQueryLineageHolder, ColumnLineageMixin):
         }
 
     def add_rename(self, src: Table, tgt: Table) -> None:
-        self.graph.add_edge(src, tgt, type=EdgeType.RENAME)
+        # index keeps the order of rename pairs within one statement, rename property as a set doesn't
+        self.graph.add_edge(
+            src, tgt, type=EdgeType.RENAME, **{EdgeTag.INDEX: len(self.rename)}
+        )
 
     @staticmethod
     def of(holder: SubQueryLineageHolder) -> "StatementLineageHolder":
@@ -376,17 +379,26 @@ class SQLLineageHolder(ColumnLineageMixin):
     ) -> DiGraph:
         g = DiGraph()
         for holder in args:
+            if holder.rename:
+                # rename edges are instructions rather than lineage, so they're not composed into the graph,
+                # but applied in statement order to what has been combined so far
+                for table_old, table_new, _ in sorted(
+                    [
+                        e
+                        for e in holder.graph.edges(data=True)
+                        if e[2].get("type") == EdgeType.RENAME
+                    ],
+                    key=lambda e: e[2].get(EdgeTag.INDEX, 0),
+                ):
+                    g = nx.relabel_nodes(g, {table_old: table_new})
+                    if g.has_node(table_new) and g.degree[table_new] == 0:
+                        g.remove_node(table_new)
+                continue
             g = nx.compose(g, holder.graph)
             if holder.drop:
                 for table in holder.drop:
                     if g.has_node(table) and g.degree[table] == 0:
                         g.remove_node(table)
-            elif holder.rename:
-                for table_old, table_new in holder.rename:
-                    g = nx.relabel_nodes(g, {table_old: table_new})
-                    g.remove_edge(table_new, table_new)
-                    if g.degree[table_new] == 0:
-                        g.remove_node(table_new)
             else:
                 read, write = holder.read, holder.write
                 if len(read) > 0 and len(write) == 0:
